@@ -283,6 +283,9 @@ def job(args):
         try:
             ws8.call('pdesolver', 'solvePDE', v8, [Mt8], ext8)
             G = ghosts8[fi_]
+            if not rec8:
+                ob('S3', f"pdesolver.solvePDE/edited-BC/face={face}", False, "solvePDE returned without handing the system to any solver")
+                continue
             r8 = ws8.vector_at(rec8[0][1], G)
             seen = any(isinstance(atom_key(a), tuple) and atom_key(a)[0] == 'cnew' for a in r8.atoms())
             ob('S8', f"pdesolver.solvePDE/edited-BC/face={face}", seen, f"RHS of the boundary row {F.cstr(G)} handed to the solver after `BCs.{face}.c = cnew`: {fmt_rat(r8, 5)}")
